@@ -1967,3 +1967,11 @@ package go_clipper2
 //@   assert after node [parallel-edges-meet-at-the-top] (!ok && topY <= c.currentBotY) ==> node.pt == Point64{ae1.curX, topY}
 //@   assert after node [default-repair-clamps-into-the-scanbeam] (absI(ae1.dx) <= 100 && absI(ae2.dx) <= 100 && topY <= c.currentBotY) ==> (topY <= node.pt.Y && node.pt.Y <= c.currentBotY)
 //@   ensures [node-appended] len(c.intersectList) == old(len(c.intersectList)) + 1 && c.intersectList[len(c.intersectList)-1] != nil && c.intersectList[len(c.intersectList)-1].edge1 == ae1 && c.intersectList[len(c.intersectList)-1].edge2 == ae2
+
+// values outside the ClipType / FillRule enumerations never reach the sweep (C03)
+//@ func clipperBase.executeInternal variant enums
+//@   props C03 C12
+//@   nosafety
+//@   assumes len(c.scanlineList) == 0 && forall(k, 0, len(c.minimaList), c.minimaList[k] != nil && c.minimaList[k].Vertex != nil)
+//@   ensures [unknown-clip-type-clips-nothing] (ct == NoClip || ct > Xor) ==> (c.succeeded && c.fillRule == old(c.fillRule) && c.clipType == old(c.clipType) && same(c.outrecList, old(c.outrecList)))
+//@   assert after c.clipType [sweep-runs-with-known-enum-values] c.clipType == ct && Intersection <= ct && ct <= Xor && c.fillRule <= Negative && (old(fillRule) <= Negative ==> c.fillRule == old(fillRule))
